@@ -328,7 +328,7 @@ func main() {
 	// 3. random walks over sparse keys, random filters
 	nw := 40
 	if th {
-		nw = 1500
+		nw = 1000
 	}
 	for k := 0; k < nw; k++ {
 		n := g.Intn(30)
@@ -348,7 +348,7 @@ func main() {
 	// 4. arbitrary single queries
 	nq := 150
 	if th {
-		nq = 6000
+		nq = 4000
 	}
 	for k := 0; k < nq; k++ {
 		q := genQdesc(g, false)
@@ -361,7 +361,7 @@ func main() {
 	// 5. codec
 	nc := 200
 	if th {
-		nc = 8000
+		nc = 6000
 	}
 	for k := 0; k < nc; k++ {
 		one(r, input{Kind: "codec", Query: genQdesc(g, g.Chance(1, 4))})
@@ -379,7 +379,7 @@ func main() {
 	// 7. the listings of the real store, and through the HTTP handlers
 	nl := 30
 	if th {
-		nl = 700
+		nl = 500
 	}
 	for k := 0; k < nl; k++ {
 		for _, listing := range []string{"logs", "transactions", "accounts"} {
